@@ -200,10 +200,12 @@ class Gen:
         r = self.r
         s = r.randrange(self.S)
         k = r.choice(["drain", "drain", "clear", "count", "join", "join", "joinmut", "joinmut", "joinmut", "joinent",
-                      "entries", "restrict", "restrict", "restrict", "slice", "slicemut", "setemit", "setemit", "flagev"])
+                      "entries", "restrict", "restrict", "restrict", "slice", "slicemut", "setemit", "setemit", "flagev", "newreader"])
         op = {"o": "wop", "k": k, "s": s}
         if k == "drain":
             op["n"] = r.choice([-1, -1, 0, 1, 2, 3])
+            if op["n"] < 0:
+                op["v"] = r.choice(["join", "count", "for_each"])
         elif k == "clear" and r.random() < 0.6:
             op["k"] = "count"
         elif k == "join":
@@ -324,7 +326,16 @@ def random_scripts(seed, n, n_ops, S_choices, tid0, profile="mixed", sweep="full
         S = S_choices[i % len(S_choices)]
         g = Gen(rng, S, max_live=max_live, profile=profile)
         ops = g.script(n_ops, far=(far if i % 3 == 0 else 0))
-        res.append({"tid": tid0 + i, "cfg": cfg_for(rng.randrange(1000), S, kinds or KINDS), "ops": ops, "sweep": sweep})
+        cfg = cfg_for(rng.randrange(1000), S, kinds or KINDS)
+        for j, k in enumerate(cfg["kinds"]):
+            if k[:2] in ("f_", "d_", "pf") and rng.random() < 0.25 and len(ops) > 12:
+                # no reader of this storage's events at set-up: one registers somewhere in the history
+                cfg["reg"][j] += "+late"
+                pos = rng.randrange(6, len(ops))
+                while pos < len(ops) and ops[pos - 1].get("o") == "fault":
+                    pos += 1
+                ops.insert(pos, {"o": "wop", "k": "newreader", "s": j})
+        res.append({"tid": tid0 + i, "cfg": cfg, "ops": ops, "sweep": sweep})
     return res
 
 
@@ -469,7 +480,7 @@ def kind_churn_scripts(seed, per_kind, n_ops, tid0, kinds=None, far=False):
                 elif x < 0.62:
                     ops.append({"o": "wop", "k": "clear", "s": 0})
                 elif x < 0.67:
-                    ops.append({"o": "wop", "k": "drain", "s": 0, "n": rng.choice([-1, 1, 2])})
+                    ops.append({"o": "wop", "k": "drain", "s": 0, "n": rng.choice([-1, -1, 1, 2]), "v": rng.choice(["join", "count", "for_each"])})
                 elif x < 0.80:
                     ops.append({"o": "sop", "path": rng.choice(PATHS["read"]), "s": 0, "h": h})
                 elif x < 0.88:
@@ -488,7 +499,14 @@ def kind_churn_scripts(seed, per_kind, n_ops, tid0, kinds=None, far=False):
                         ops.append({"o": "wop", "k": "flagev", "s": 0, "ev": rng.choice(["M", "I", "R"]), "id": rng.choice(keep)})
                 elif j % 4 == 1:
                     ops.append({"o": "oob_insert", "s": 0})
-            res.append({"tid": tid, "cfg": {"kinds": [kind], "reg": [REGS[j % len(REGS)]]}, "ops": ops, "sweep": "full"})
+            reg = REGS[j % len(REGS)]
+            if kind[:2] in ("f_", "d_", "pf") and j % 3 == 1:
+                # no reader at set-up: the first one registers after the storage has been in use for a while,
+                # another one later on
+                reg += "+late"
+                for pos in sorted({rng.randrange(5, max(6, len(ops) // 2)), rng.randrange(5, len(ops) + 1)}, reverse=True):
+                    ops.insert(pos, {"o": "wop", "k": "newreader", "s": 0})
+            res.append({"tid": tid, "cfg": {"kinds": [kind], "reg": [reg]}, "ops": ops, "sweep": "full"})
             tid += 1
     return res
 
